@@ -1,15 +1,16 @@
-\* thorough, exhaustive: 3 users, 4 uploads, limit 2 changed once, unbounded life cycles.
+\* thorough, exhaustive: 3 users, 4 uploads, limit 2, two life-cycle events.
 SPECIFICATION Spec
 CONSTANTS
   UploadIds = {1, 2, 3, 5}
   PerUser = 2
   MaxSlots = 2
   InitSlots = {2}
+  InitTruth = {"unknown"}
   AnyInitAttr = FALSE
   Statuses = {"unknown", "offline", "away", "online"}
-  SlotBudget = 1
+  SlotBudget = 0
   AttrBudget = 0
-  LifeBudget = 99
+  LifeBudget = 2
   TrackMgmt = TRUE
   GrantAll = FALSE
   UseUploadingUsers = TRUE
@@ -19,7 +20,10 @@ CONSTANTS
   WFriend = 5
   WPriv = 100
   StateChangeNotifies = TRUE
-  SlotsChangeNotifies = FALSE
+  SlotsChangeNotifies = TRUE
+  TaskEndNotifies = FALSE
+  RequeueTail = FALSE
+  TrackPerUser = TRUE
 INVARIANT TypeOK
 INVARIANT OnePerUser
 INVARIANT FlagsIffQueued
@@ -27,6 +31,8 @@ INVARIANT WakeIffRunnable
 INVARIANT NoDoubleTask
 INVARIANT TaskOnlyQueued
 INVARIANT OneTaskPerUser
+INVARIANT KnowledgeKept
+INVARIANT NoTaskWhileInFlight
 PROPERTY StartRespectsLimit
 PROPERTY NeverOffline
 PROPERTY PriorityHolds
